@@ -21,6 +21,20 @@ def _commit_nodes(cfg):
     return [n for n in cfg.stmt_nodes() for c in n.calls() if (dotted(c.func) or "").endswith("_commit_tree")]
 
 
+def _index_names(cfg, du) -> set:
+    """Local names that hold the object bound by a ``with ... as`` (the locked index), directly or through plain
+    re-binding (`index = <that object>`, also the binding an inlined helper introduces)."""
+    from ..dataflow import origins
+    out = {d.name for n in cfg.nodes for d in du.defs_at.get(n.id, []) if d.kind == "with"}
+    for n in cfg.nodes:
+        for d in du.defs_at.get(n.id, []):
+            if d.kind == "assign" and not d.index and d.value is not None and d.name not in out:
+                os_ = origins(du, n, d.value)
+                if os_ and all(o.kind == "with" for o in os_):
+                    out.add(d.name)
+    return out
+
+
 def _is_change_test(t: ast.AST, index_vars):
     """-> label of the edge meaning 'changed', or None."""
     if not (isinstance(t, ast.Compare) and len(t.ops) == 1):
@@ -44,7 +58,7 @@ def commit_guard_obligations(ctx):
         commits = _commit_nodes(cfg)
         if not commits:
             raise AnalysisError("%s._import_one: no _commit_tree call" % cq)
-        index_vars = {d.name for n in cfg.nodes for d in du.defs_at.get(n.id, []) if d.kind == "with"}
+        index_vars = _index_names(cfg, du)
         tests = [(n, _is_change_test(n.ast, index_vars)) for n in cfg.nodes if n.kind == "test"]
         tests = [(n, lab) for n, lab in tests if lab]
         blocked = [(n, m, l) for n, lab in tests for m, l in n.succ if l == lab]
